@@ -190,3 +190,7 @@ package dataflow
 //@   ensures all_args: forall i int :: istype(callCommon.Value, *ssa.Builtin) && 0 <= i && i < len(callCommon.Args) && (callCommon.Value.Name() == "min" || callCommon.Value.Name() == "max" || callCommon.Value.Name() == "complex" || callCommon.Value.Name() == "len" || callCommon.Value.Name() == "real" || callCommon.Value.Name() == "imag" || callCommon.Value.Name() == "ssa:wrapnilchk") ==> xfer(t, instruction, callCommon.Args[i], callValue)
 //@   ensures append: istype(callCommon.Value, *ssa.Builtin) && callCommon.Value.Name() == "append" ==> xfer(t, instruction, callCommon.Args[0], callValue) && xfer(t, instruction, callCommon.Args[1], callValue) && xfer(t, instruction, callCommon.Args[1], callCommon.Args[0])
 //@   ensures copy: istype(callCommon.Value, *ssa.Builtin) && callCommon.Value.Name() == "copy" && len(callCommon.Args) == 2 ==> xfer(t, instruction, callCommon.Args[1], callCommon.Args[0])
+
+//@ func NewBaseRationale
+//@   property C14
+//@   ensures result != nil
